@@ -1,3 +1,9 @@
+import os
 import sys
 from vlib import core
-sys.exit(core.main(sys.argv[1:]))
+rc = core.main(sys.argv[1:])
+sys.stdout.flush()
+sys.stderr.flush()
+# skip interpreter teardown: dd.autoref prints reference-count diagnostics
+# from BDD.__del__ when Function objects are still alive at exit
+os._exit(rc or 0)
